@@ -103,7 +103,7 @@ def expectHtml (dopt : Option DocTypeT) (s : Stream) : Sexp :=
     else if !okList body then out "not-a-forest"
     else if !forestUniformNs u body then out "mixed-namespaces"
     else if !htmlForestOkP body then out "body-hypotheses"
-    else if !dtOkOf (winDt dopt dt) then out "doctype-fields"
+    else if !dtOkOf (winDt dopt dt) || !dtNoGtOf (winDt dopt dt) then out "doctype-fields"
     else .list [.atom "ok", .list ((htmlDocView (winDt dopt dt) (forestPiecesP body)).flatMap htok)]
 
 def expectXhtml (dropd : Bool) (dopt : Option DocTypeT) (s : Stream) : Sexp :=
